@@ -171,15 +171,20 @@ func checkProperty(c *Ctx, p *Property, known *KnownFile, verifDir string, write
 	var all []*Obligation
 	var summaries []RuleSummary
 	broken := []string{}
-	for _, id := range p.Rules {
+	for _, ref := range p.Rules {
+		id, scopes, floor := ruleRef(ref)
 		res := runRule(c, id)
 		r := allRules[id]
 		if res.broken != "" {
 			broken = append(broken, res.broken)
 			continue
 		}
-		s := RuleSummary{Rule: id, Doc: r.Doc, Floor: r.Floor, Instances: len(res.obls)}
-		for _, o := range res.obls {
+		obls := scopeFilter(res.obls, scopes)
+		if floor < 0 {
+			floor = r.Floor
+		}
+		s := RuleSummary{Rule: id, Doc: r.Doc, Floor: floor, Instances: len(obls), Scope: strings.Join(scopes, " ; ")}
+		for _, o := range obls {
 			switch o.Status {
 			case Discharged:
 				s.Discharged++
@@ -193,7 +198,7 @@ func checkProperty(c *Ctx, p *Property, known *KnownFile, verifDir string, write
 			}
 		}
 		summaries = append(summaries, s)
-		all = append(all, res.obls...)
+		all = append(all, obls...)
 	}
 	out := checkOutcome{}
 	var undecided []string
@@ -334,13 +339,14 @@ func cmdAll(args []string) int {
 			if len(want) > 0 && !want[p.ID] {
 				continue
 			}
-			for _, id := range p.Rules {
+			for _, ref := range p.Rules {
+				id, scopes, _ := ruleRef(ref)
 				res := runRule(c, id)
 				if res.broken != "" && !seen["broken|"+id] {
 					seen["broken|"+id] = true
 					enc.Encode(map[string]any{"rule": id, "status": "broken", "by": res.broken})
 				}
-				for _, o := range res.obls {
+				for _, o := range scopeFilter(res.obls, scopes) {
 					if o.Status == Discharged || seen[o.Key()] {
 						continue
 					}
@@ -425,4 +431,39 @@ func defaultVerifDir() string {
 		}
 	}
 	return "/verif"
+}
+
+// ruleRef splits a property's rule reference "RULE@prefix;prefix#floor": the property takes only the
+// rule's obligations whose construct starts with one of the prefixes (the rule itself always runs
+// module-wide); floor is the vacuity floor for that slice (-1: the rule's own floor).
+func ruleRef(ref string) (id string, scopes []string, floor int) {
+	floor = -1
+	id = ref
+	if i := strings.IndexByte(ref, '@'); i >= 0 {
+		id = ref[:i]
+		rest := ref[i+1:]
+		floor = 1
+		if j := strings.IndexByte(rest, '#'); j >= 0 {
+			fmt.Sscanf(rest[j+1:], "%d", &floor)
+			rest = rest[:j]
+		}
+		scopes = strings.Split(rest, ";")
+	}
+	return
+}
+
+func scopeFilter(obls []*Obligation, scopes []string) []*Obligation {
+	if len(scopes) == 0 {
+		return obls
+	}
+	var out []*Obligation
+	for _, o := range obls {
+		for _, sc := range scopes {
+			if strings.HasPrefix(o.Construct, sc) {
+				out = append(out, o)
+				break
+			}
+		}
+	}
+	return out
 }
